@@ -11,12 +11,13 @@
 (* One JSON line per (n, c, q) into IOEnv.GEN_OUT.                         *)
 (***************************************************************************)
 EXTENDS ShiftOps, Json, IOUtils, CSV
-CONSTANTS Mode, Lens, NCols
+CONSTANTS Mode, Lens, NCols, NReal    \* real-input expectation for columns c < NReal
 VARIABLES phase, n, c, q
 vars == <<phase, n, c, q>>
 
-TQ(k) == {0, 1, -1, 4, -4, 6, -6, 4 * (k - 1), -4 * (k - 1), 4 * k, -4 * k, 4 * (k + 1), -4 * (k + 1),
-          2, -2, 3, -3, 8, -8, 10, -10, 4 * k + 10, -(4 * k + 10), 4 * k - 1, 1 - 4 * k}
+\* every shift value the Gen_TimeShift / Gen_FreqShift / Gen_Snippet configurations use
+TQ(k) == {0, 1, -1, 2, -2, 3, -3, 4, -4, 6, -6, 4 * (k - 1), -4 * (k - 1), 4 * k, -4 * k,
+          4 * (k + 1), -4 * (k + 1), 4 * k + 10, -(4 * k + 10)}
 Q_Lens == 1..6
 F_Lens == 1..8
 
@@ -30,9 +31,9 @@ TimeRec ==
       Z == DeclZeroE(n, q)
       all == Cardinality(Z) = n
       yc == IF all THEN Zeros(n) ELSE IF q = 0 THEN x ELSE ZeroAt(Delay(x, q), Z)
-      yr == IF all THEN Zeros(n) ELSE IF q = 0 THEN RealPart(x) ELSE ZeroAt(DelayReal(x, q), Z)
+      yr == IF c >= NReal THEN <<>> ELSE IF all THEN Zeros(n) ELSE IF q = 0 THEN RealPart(x) ELSE ZeroAt(DelayReal(x, q), Z)
   IN [mode |-> "time", N |-> n, c |-> c, q |-> q, x |-> Ints(x), zero |-> SortedSeq(Z),
-      yc |-> yc, yr |-> Mat([i \in 1..n |-> yr[i].re])]
+      yc |-> yc, yr |-> Mat([i \in 1..Len(yr) |-> yr[i].re])]
 
 \* the bin a whole non-zero shift may or may not clear (float product just beyond the integer)
 FreeBin(k, qq) == IF qq = 0 \/ qq % 4 # 0 THEN {}
